@@ -17,6 +17,10 @@ import sys
 ROOT = os.path.dirname(os.path.dirname(os.path.abspath(__file__)))
 CRATE = os.path.join(ROOT, 'replay')
 BIN = os.path.join(CRATE, 'target', 'release', 'verif-replay')
+# properties anchored in aiken-project use a second harness crate (heavier dependency tree, built only for them)
+CRATE_P = os.path.join(ROOT, 'replayp')
+BIN_P = os.path.join(CRATE_P, 'target', 'release', 'verif-replayp')
+PROJECT_PROPS = {'C18'}
 MODES = {
     'C02': ['optimizer'],
     'C03': ['cek', 'corpus'],
@@ -26,10 +30,12 @@ MODES = {
     'C08': ['flat', 'datacodec'],
     'C11': ['debruijn', 'interner', 'named'],
     'C16': ['shrinker'],
+    'C18': ['applyparam'],
 }
 
 
-def build():
+def build(crate=None):
+    CRATE = crate or globals()['CRATE']
     lock = os.path.join(CRATE, 'Cargo.lock')
     if not os.path.exists(lock):
         shutil.copy('/repo/Cargo.lock', lock)
@@ -46,15 +52,25 @@ def main():
     if len(sys.argv) < 2:
         print(__doc__)
         sys.exit(2)
-    if not build():
-        print('REPLAY-UNAVAILABLE the replay tool does not build against the current tree')
-        sys.exit(3)
-    if sys.argv[1] == 'replay':
-        sys.exit(subprocess.call([BIN, 'replay', sys.argv[2]]))
     args = sys.argv[2:]
     def opt(k, d):
         return args[args.index(k) + 1] if k in args else d
     pid = opt('--property', '')
+    BIN = globals()['BIN']
+    crate = CRATE
+    if sys.argv[1] == 'replay':
+        try:
+            with open(sys.argv[2]) as f:
+                pid = json.load(f).get('property', '')
+        except (OSError, ValueError):
+            pid = ''
+    if pid in PROJECT_PROPS:
+        crate, BIN = CRATE_P, BIN_P
+    if not build(crate):
+        print('REPLAY-UNAVAILABLE the replay tool does not build against the current tree')
+        sys.exit(3)
+    if sys.argv[1] == 'replay':
+        sys.exit(subprocess.call([BIN, 'replay', sys.argv[2]]))
     modes = MODES.get(pid)
     if not modes:
         print('SUMMARY no bounded mode serves %s' % pid)
